@@ -248,7 +248,7 @@ def main(argv=None):
     seen_h = set()
     for r in results:
         all_hist = os.environ.get("PYVC_ALL_HISTORIES", "1" if tier == "thorough" else "0") == "1" and not r.get("via_callee") \
-            and any(K.name == r["function"] for K, _ in sel)
+            and any(K.name == r["function"] for K, _ in sel) and getattr(ct.REGISTRY[r["function"]], "history_ok", True)
         if (all_hist or any(ob["name"] == "frame.assigns" and ob["verdict"] == "refuted" for ob in r["obligations"])) \
                 and ct.REGISTRY[r["function"]].layer == "gadget" and "_history" not in r["cfg_raw"]:
             for kind in HI.KINDS:
